@@ -7,6 +7,7 @@ import (
 	"io"
 	"io/fs"
 	"os"
+	"strings"
 	"time"
 
 	"github.com/fsnotify/fsnotify"
@@ -218,4 +219,29 @@ func VerifC20Tail() {
 		}
 		check()
 	}
+}
+
+// ---------------- C20 (c): lines longer than the reader's buffer ----------------
+// readLines is driven directly: a line of L bytes (non-uniform filler, symbolic first and last
+// bytes; EXECVE records reach 8970 bytes) between two short lines is delivered intact, once, in order.
+func VerifC20LongLine() {
+	L := verifrt.Param("L", 4200)
+	fill := make([]byte, L)
+	for i := range fill {
+		fill[i] = byte('a' + i%23)
+	}
+	long := verifrt.Str("head", 2, 2, `[^\n]`) + string(fill) + verifrt.Str("tail", 1, 1, `[^\n]`)
+	content := "first\n" + long + "\n" + "last\n"
+	lines := make(chan string, 4)
+	n, err := readLines(context.Background(), strings.NewReader(content), lines)
+	verifrt.Reach("c20.long.read")
+	verifrt.Assert("c20.long.no-error", err == nil)
+	verifrt.Assert("c20.long.bytes-consumed", n == int64(len(content)))
+	verifrt.Assert("c20.long.three-lines", len(lines) == 3)
+	if len(lines) != 3 {
+		return
+	}
+	verifrt.Assert("c20.long.first", <-lines == "first")
+	verifrt.Assert("c20.long.line-intact", <-lines == long)
+	verifrt.Assert("c20.long.last", <-lines == "last")
 }
